@@ -88,7 +88,7 @@ func convertMap(v, w reflect.Value) error {
 		}
 
 		el := reflect.New(v.Type().Elem())
-		err = convertFrom(key, w.MapIndex(k))
+		err = convertFrom(el, w.MapIndex(k))
 		if err != nil {
 			return fmt.Errorf("cannot convert map value %w", err)
 		}
